@@ -15,3 +15,8 @@ claim("C02", "must-pass-through / ordering queries over go/cfg paths of the queu
       "Decides the order of durable effects on every control-flow path (with repeated conditions correlated) of storeNewMessage, updateMetadataOnDisk, readDiskQueue, tryDelivery, queueDelivery.Body/Abort, removeFromDisk: a necessary condition of every clause of the crash property. It does not enumerate crash points or execute recovery.",
       "trusts go/types, go/cfg; A2 (Sync/Rename/Create/Remove/Encode do what they document)", "DESIGN.md §3 C02")
 PENDING.pop("C02", None)
+
+claim("C01", "typestate, must-record and partition queries over go/cfg paths of the queue's deliver / tryDelivery / emitDSN with error nil-ness refinement; boundary evaluation (go/constant) of the attempt-bound comparison",
+      "Decides on every control-flow path of the queue's delivery loop: the downstream delivery is closed exactly once and never used afterwards; Commit only when not all accepted recipients failed; each failure of Start/AddRcpt/Body/Commit is recorded for every recipient it concerns; the per-attempt classification is a partition with retry only for temporary/unclassified errors and strictly below max_tries (comparison evaluated at tries=0,max=1 and max=2); the report is decided and handed over before the spool forgets; emitDSN suppresses only for the three allowed reasons. The status keys reported by targets below the queue are C09's rules.",
+      "trusts go/types, go/cfg; does not model remote servers", "DESIGN.md §3 C01")
+PENDING.pop("C01", None)
